@@ -1,6 +1,7 @@
 import Tv.GenClosures
 import Tv.Lemmas.GenSim
 import Tv.Thm.C01
+import Tv.Thm.C02Gen
 import Mathlib.Tactic.Ring
 import Mathlib.Tactic.FieldSimp
 import Mathlib.Tactic.NormNum
@@ -71,6 +72,21 @@ theorem ts_vsum_exact (sqrt : Rat → Rat) (sh : Shape) (xs : List (Option Rat))
   simp only [tsFeat] at e
   
   rw [ts_vsum_minPeriods, ← e]; exact h
+/-- **from source, end to end**: replay the log of the regenerated driver (`rolling_apply_to`, resp. the
+iterator body `rolling_apply`) on the series, run the regenerated closure over it: every position
+carries the from-scratch statistic of its window -/
+theorem ts_vsum_from_source (sqrt : Rat → Rat) (xs : List (Option Rat)) (w : Nat) (mp : Option Nat) (hw : 1 ≤ w) :
+    (∃ log, GenDrv.rolling_apply_to.run xs.length w = some log ∧
+      List.Forall₂ (Agree sqrt)
+        (genRun (Gen.ts_vsum.step sqrt w (Gen.ts_vsum.minPeriods w mp)) (Gen.ts_vsum.init w) (C02Gen.callsOfLogTo xs log))
+        ((List.range xs.length).map fun i => Spec.feat .sum w mp (vwin xs i w))) ∧
+    (∃ log, GenDrv.rolling_apply.run xs.length w = some log ∧
+      List.Forall₂ (Agree sqrt)
+        (genRun (Gen.ts_vsum.step sqrt w (Gen.ts_vsum.minPeriods w mp)) (Gen.ts_vsum.init w) (C02Gen.callsOfLogIter xs log))
+        ((List.range xs.length).map fun i => Spec.feat .sum w mp (vwin xs i w))) := by
+  obtain ⟨l1, a1, b1⟩ := C02Gen.applyCalls_to_of_log xs w hw
+  obtain ⟨l2, a2, b2⟩ := C02Gen.applyCalls_iter_of_log xs w hw
+  exact ⟨⟨l1, a1, b1 ▸ ts_vsum_exact sqrt .to xs w mp hw⟩, ⟨l2, a2, b2 ▸ ts_vsum_exact sqrt .iter xs w mp hw⟩⟩
 
 /-! ### `ts_vmean` -/
 def R_ts_vmean (g : Gen.ts_vmean.St) (m : Mom) : Prop := g.sum = m.s1 ∧ g.n = m.n
@@ -111,6 +127,21 @@ theorem ts_vmean_exact (sqrt : Rat → Rat) (sh : Shape) (xs : List (Option Rat)
   simp only [tsFeat] at e
   
   rw [ts_vmean_minPeriods, ← e]; exact h
+/-- **from source, end to end**: replay the log of the regenerated driver (`rolling_apply_to`, resp. the
+iterator body `rolling_apply`) on the series, run the regenerated closure over it: every position
+carries the from-scratch statistic of its window -/
+theorem ts_vmean_from_source (sqrt : Rat → Rat) (xs : List (Option Rat)) (w : Nat) (mp : Option Nat) (hw : 1 ≤ w) :
+    (∃ log, GenDrv.rolling_apply_to.run xs.length w = some log ∧
+      List.Forall₂ (Agree sqrt)
+        (genRun (Gen.ts_vmean.step sqrt w (Gen.ts_vmean.minPeriods w mp)) (Gen.ts_vmean.init w) (C02Gen.callsOfLogTo xs log))
+        ((List.range xs.length).map fun i => Spec.feat .mean w mp (vwin xs i w))) ∧
+    (∃ log, GenDrv.rolling_apply.run xs.length w = some log ∧
+      List.Forall₂ (Agree sqrt)
+        (genRun (Gen.ts_vmean.step sqrt w (Gen.ts_vmean.minPeriods w mp)) (Gen.ts_vmean.init w) (C02Gen.callsOfLogIter xs log))
+        ((List.range xs.length).map fun i => Spec.feat .mean w mp (vwin xs i w))) := by
+  obtain ⟨l1, a1, b1⟩ := C02Gen.applyCalls_to_of_log xs w hw
+  obtain ⟨l2, a2, b2⟩ := C02Gen.applyCalls_iter_of_log xs w hw
+  exact ⟨⟨l1, a1, b1 ▸ ts_vmean_exact sqrt .to xs w mp hw⟩, ⟨l2, a2, b2 ▸ ts_vmean_exact sqrt .iter xs w mp hw⟩⟩
 
 /-! ### `ts_vstd` -/
 def R_ts_vstd (g : Gen.ts_vstd.St) (m : Mom) : Prop := g.sum = m.s1 ∧ g.sum2 = m.s2 ∧ g.n = m.n
@@ -154,6 +185,21 @@ theorem ts_vstd_exact (sqrt : Rat → Rat) (sh : Shape) (xs : List (Option Rat))
   simp only [tsFeat] at e
   
   rw [ts_vstd_minPeriods, ← e]; exact h
+/-- **from source, end to end**: replay the log of the regenerated driver (`rolling_apply_to`, resp. the
+iterator body `rolling_apply`) on the series, run the regenerated closure over it: every position
+carries the from-scratch statistic of its window -/
+theorem ts_vstd_from_source (sqrt : Rat → Rat) (xs : List (Option Rat)) (w : Nat) (mp : Option Nat) (hw : 1 ≤ w) :
+    (∃ log, GenDrv.rolling_apply_to.run xs.length w = some log ∧
+      List.Forall₂ (Agree sqrt)
+        (genRun (Gen.ts_vstd.step sqrt w (Gen.ts_vstd.minPeriods w mp)) (Gen.ts_vstd.init w) (C02Gen.callsOfLogTo xs log))
+        ((List.range xs.length).map fun i => Spec.feat .std w mp (vwin xs i w))) ∧
+    (∃ log, GenDrv.rolling_apply.run xs.length w = some log ∧
+      List.Forall₂ (Agree sqrt)
+        (genRun (Gen.ts_vstd.step sqrt w (Gen.ts_vstd.minPeriods w mp)) (Gen.ts_vstd.init w) (C02Gen.callsOfLogIter xs log))
+        ((List.range xs.length).map fun i => Spec.feat .std w mp (vwin xs i w))) := by
+  obtain ⟨l1, a1, b1⟩ := C02Gen.applyCalls_to_of_log xs w hw
+  obtain ⟨l2, a2, b2⟩ := C02Gen.applyCalls_iter_of_log xs w hw
+  exact ⟨⟨l1, a1, b1 ▸ ts_vstd_exact sqrt .to xs w mp hw⟩, ⟨l2, a2, b2 ▸ ts_vstd_exact sqrt .iter xs w mp hw⟩⟩
 
 /-! ### `ts_vvar` -/
 def R_ts_vvar (g : Gen.ts_vvar.St) (m : Mom) : Prop := g.sum = m.s1 ∧ g.sum2 = m.s2 ∧ g.n = m.n
@@ -198,6 +244,21 @@ theorem ts_vvar_exact (sqrt : Rat → Rat) (sh : Shape) (xs : List (Option Rat))
   simp only [tsFeat] at e
   
   rw [ts_vvar_minPeriods, ← e]; exact h
+/-- **from source, end to end**: replay the log of the regenerated driver (`rolling_apply_to`, resp. the
+iterator body `rolling_apply`) on the series, run the regenerated closure over it: every position
+carries the from-scratch statistic of its window -/
+theorem ts_vvar_from_source (sqrt : Rat → Rat) (xs : List (Option Rat)) (w : Nat) (mp : Option Nat) (hw : 1 ≤ w) :
+    (∃ log, GenDrv.rolling_apply_to.run xs.length w = some log ∧
+      List.Forall₂ (Agree sqrt)
+        (genRun (Gen.ts_vvar.step sqrt w (Gen.ts_vvar.minPeriods w mp)) (Gen.ts_vvar.init w) (C02Gen.callsOfLogTo xs log))
+        ((List.range xs.length).map fun i => Spec.feat .var w mp (vwin xs i w))) ∧
+    (∃ log, GenDrv.rolling_apply.run xs.length w = some log ∧
+      List.Forall₂ (Agree sqrt)
+        (genRun (Gen.ts_vvar.step sqrt w (Gen.ts_vvar.minPeriods w mp)) (Gen.ts_vvar.init w) (C02Gen.callsOfLogIter xs log))
+        ((List.range xs.length).map fun i => Spec.feat .var w mp (vwin xs i w))) := by
+  obtain ⟨l1, a1, b1⟩ := C02Gen.applyCalls_to_of_log xs w hw
+  obtain ⟨l2, a2, b2⟩ := C02Gen.applyCalls_iter_of_log xs w hw
+  exact ⟨⟨l1, a1, b1 ▸ ts_vvar_exact sqrt .to xs w mp hw⟩, ⟨l2, a2, b2 ▸ ts_vvar_exact sqrt .iter xs w mp hw⟩⟩
 
 /-! ### `ts_vskew` -/
 def R_ts_vskew (g : Gen.ts_vskew.St) (m : Mom) : Prop := g.sum = m.s1 ∧ g.sum2 = m.s2 ∧ g.sum3 = m.s3 ∧ g.n = m.n
@@ -243,6 +304,21 @@ theorem ts_vskew_exact (sqrt : Rat → Rat) (sh : Shape) (xs : List (Option Rat)
   simp only [tsFeat] at e
   
   rw [ts_vskew_minPeriods, ← e]; exact h
+/-- **from source, end to end**: replay the log of the regenerated driver (`rolling_apply_to`, resp. the
+iterator body `rolling_apply`) on the series, run the regenerated closure over it: every position
+carries the from-scratch statistic of its window -/
+theorem ts_vskew_from_source (sqrt : Rat → Rat) (xs : List (Option Rat)) (w : Nat) (mp : Option Nat) (hw : 1 ≤ w) :
+    (∃ log, GenDrv.rolling_apply_to.run xs.length w = some log ∧
+      List.Forall₂ AgreeW
+        (genRun (Gen.ts_vskew.step sqrt w (Gen.ts_vskew.minPeriods w mp)) (Gen.ts_vskew.init w) (C02Gen.callsOfLogTo xs log))
+        ((List.range xs.length).map fun i => Spec.feat .skew w mp (vwin xs i w))) ∧
+    (∃ log, GenDrv.rolling_apply.run xs.length w = some log ∧
+      List.Forall₂ AgreeW
+        (genRun (Gen.ts_vskew.step sqrt w (Gen.ts_vskew.minPeriods w mp)) (Gen.ts_vskew.init w) (C02Gen.callsOfLogIter xs log))
+        ((List.range xs.length).map fun i => Spec.feat .skew w mp (vwin xs i w))) := by
+  obtain ⟨l1, a1, b1⟩ := C02Gen.applyCalls_to_of_log xs w hw
+  obtain ⟨l2, a2, b2⟩ := C02Gen.applyCalls_iter_of_log xs w hw
+  exact ⟨⟨l1, a1, b1 ▸ ts_vskew_exact sqrt .to xs w mp hw⟩, ⟨l2, a2, b2 ▸ ts_vskew_exact sqrt .iter xs w mp hw⟩⟩
 
 /-! ### `ts_vkurt` -/
 def R_ts_vkurt (g : Gen.ts_vkurt.St) (m : Mom) : Prop := g.sum = m.s1 ∧ g.sum2 = m.s2 ∧ g.sum3 = m.s3 ∧ g.sum4 = m.s4 ∧ g.n = m.n
@@ -312,6 +388,21 @@ theorem ts_vkurt_exact (sqrt : Rat → Rat) (sh : Shape) (xs : List (Option Rat)
   simp only [tsFeat] at e
   
   rw [ts_vkurt_minPeriods, ← e]; exact h
+/-- **from source, end to end**: replay the log of the regenerated driver (`rolling_apply_to`, resp. the
+iterator body `rolling_apply`) on the series, run the regenerated closure over it: every position
+carries the from-scratch statistic of its window -/
+theorem ts_vkurt_from_source (sqrt : Rat → Rat) (xs : List (Option Rat)) (w : Nat) (mp : Option Nat) (hw : 1 ≤ w) :
+    (∃ log, GenDrv.rolling_apply_to.run xs.length w = some log ∧
+      List.Forall₂ (Agree sqrt)
+        (genRun (Gen.ts_vkurt.step sqrt w (Gen.ts_vkurt.minPeriods w mp)) (Gen.ts_vkurt.init w) (C02Gen.callsOfLogTo xs log))
+        ((List.range xs.length).map fun i => Spec.feat .kurt w mp (vwin xs i w))) ∧
+    (∃ log, GenDrv.rolling_apply.run xs.length w = some log ∧
+      List.Forall₂ (Agree sqrt)
+        (genRun (Gen.ts_vkurt.step sqrt w (Gen.ts_vkurt.minPeriods w mp)) (Gen.ts_vkurt.init w) (C02Gen.callsOfLogIter xs log))
+        ((List.range xs.length).map fun i => Spec.feat .kurt w mp (vwin xs i w))) := by
+  obtain ⟨l1, a1, b1⟩ := C02Gen.applyCalls_to_of_log xs w hw
+  obtain ⟨l2, a2, b2⟩ := C02Gen.applyCalls_iter_of_log xs w hw
+  exact ⟨⟨l1, a1, b1 ▸ ts_vkurt_exact sqrt .to xs w mp hw⟩, ⟨l2, a2, b2 ▸ ts_vkurt_exact sqrt .iter xs w mp hw⟩⟩
 
 /-! ### `ts_vewm` -/
 def R_ts_vewm (g : Gen.ts_vewm.St) (m : Ewm) : Prop := g.n = m.n ∧ g.q_x = m.qx
@@ -352,6 +443,21 @@ theorem ts_vewm_exact (sqrt : Rat → Rat) (sh : Shape) (xs : List (Option Rat))
   simp only [tsFeat] at e
   
   rw [ts_vewm_minPeriods, ← e]; exact h
+/-- **from source, end to end**: replay the log of the regenerated driver (`rolling_apply_to`, resp. the
+iterator body `rolling_apply`) on the series, run the regenerated closure over it: every position
+carries the from-scratch statistic of its window -/
+theorem ts_vewm_from_source (sqrt : Rat → Rat) (xs : List (Option Rat)) (w : Nat) (mp : Option Nat) (hw : 1 ≤ w) :
+    (∃ log, GenDrv.rolling_apply_to.run xs.length w = some log ∧
+      List.Forall₂ (Agree sqrt)
+        (genRun (Gen.ts_vewm.step sqrt w (Gen.ts_vewm.minPeriods w mp)) (Gen.ts_vewm.init w) (C02Gen.callsOfLogTo xs log))
+        ((List.range xs.length).map fun i => Spec.feat .ewm w mp (vwin xs i w))) ∧
+    (∃ log, GenDrv.rolling_apply.run xs.length w = some log ∧
+      List.Forall₂ (Agree sqrt)
+        (genRun (Gen.ts_vewm.step sqrt w (Gen.ts_vewm.minPeriods w mp)) (Gen.ts_vewm.init w) (C02Gen.callsOfLogIter xs log))
+        ((List.range xs.length).map fun i => Spec.feat .ewm w mp (vwin xs i w))) := by
+  obtain ⟨l1, a1, b1⟩ := C02Gen.applyCalls_to_of_log xs w hw
+  obtain ⟨l2, a2, b2⟩ := C02Gen.applyCalls_iter_of_log xs w hw
+  exact ⟨⟨l1, a1, b1 ▸ ts_vewm_exact sqrt .to xs w mp hw⟩, ⟨l2, a2, b2 ▸ ts_vewm_exact sqrt .iter xs w mp hw⟩⟩
 
 /-! ### `ts_vwma` -/
 def R_ts_vwma (g : Gen.ts_vwma.St) (m : Wma) : Prop := g.n = m.n ∧ g.sum = m.sum ∧ g.sum_xt = m.sxt
@@ -392,6 +498,21 @@ theorem ts_vwma_exact (sqrt : Rat → Rat) (sh : Shape) (xs : List (Option Rat))
   simp only [tsFeat] at e
   
   rw [ts_vwma_minPeriods, ← e]; exact h
+/-- **from source, end to end**: replay the log of the regenerated driver (`rolling_apply_to`, resp. the
+iterator body `rolling_apply`) on the series, run the regenerated closure over it: every position
+carries the from-scratch statistic of its window -/
+theorem ts_vwma_from_source (sqrt : Rat → Rat) (xs : List (Option Rat)) (w : Nat) (mp : Option Nat) (hw : 1 ≤ w) :
+    (∃ log, GenDrv.rolling_apply_to.run xs.length w = some log ∧
+      List.Forall₂ (Agree sqrt)
+        (genRun (Gen.ts_vwma.step sqrt w (Gen.ts_vwma.minPeriods w mp)) (Gen.ts_vwma.init w) (C02Gen.callsOfLogTo xs log))
+        ((List.range xs.length).map fun i => Spec.feat .wma w mp (vwin xs i w))) ∧
+    (∃ log, GenDrv.rolling_apply.run xs.length w = some log ∧
+      List.Forall₂ (Agree sqrt)
+        (genRun (Gen.ts_vwma.step sqrt w (Gen.ts_vwma.minPeriods w mp)) (Gen.ts_vwma.init w) (C02Gen.callsOfLogIter xs log))
+        ((List.range xs.length).map fun i => Spec.feat .wma w mp (vwin xs i w))) := by
+  obtain ⟨l1, a1, b1⟩ := C02Gen.applyCalls_to_of_log xs w hw
+  obtain ⟨l2, a2, b2⟩ := C02Gen.applyCalls_iter_of_log xs w hw
+  exact ⟨⟨l1, a1, b1 ▸ ts_vwma_exact sqrt .to xs w mp hw⟩, ⟨l2, a2, b2 ▸ ts_vwma_exact sqrt .iter xs w mp hw⟩⟩
 
 /-! ### `ts_sum` -/
 def R_ts_sum (g : Gen.ts_sum.St) (m : Mom) : Prop := g.sum = m.s1 ∧ g.n = m.n
@@ -431,6 +552,21 @@ theorem ts_sum_exact (sqrt : Rat → Rat) (sh : Shape) (xs : List Rat) (w : Nat)
   simp only [tsFeat] at e
   simp only [List.length_map] at e
   rw [ts_sum_minPeriods, ← e]; exact h
+/-- **from source, end to end**: replay the log of the regenerated driver (`rolling_apply_to`, resp. the
+iterator body `rolling_apply`) on the series, run the regenerated closure over it: every position
+carries the from-scratch statistic of its window -/
+theorem ts_sum_from_source (sqrt : Rat → Rat) (xs : List Rat) (w : Nat) (mp : Option Nat) (hw : 1 ≤ w) :
+    (∃ log, GenDrv.rolling_apply_to.run xs.length w = some log ∧
+      List.Forall₂ (Agree sqrt)
+        (genRun (Gen.ts_sum.step sqrt w (Gen.ts_sum.minPeriods w mp)) (Gen.ts_sum.init w) (C02Gen.callsOfLogTo xs log))
+        ((List.range xs.length).map fun i => Spec.feat .sum w mp (vwin (xs.map some) i w))) ∧
+    (∃ log, GenDrv.rolling_apply.run xs.length w = some log ∧
+      List.Forall₂ (Agree sqrt)
+        (genRun (Gen.ts_sum.step sqrt w (Gen.ts_sum.minPeriods w mp)) (Gen.ts_sum.init w) (C02Gen.callsOfLogIter xs log))
+        ((List.range xs.length).map fun i => Spec.feat .sum w mp (vwin (xs.map some) i w))) := by
+  obtain ⟨l1, a1, b1⟩ := C02Gen.applyCalls_to_of_log xs w hw
+  obtain ⟨l2, a2, b2⟩ := C02Gen.applyCalls_iter_of_log xs w hw
+  exact ⟨⟨l1, a1, b1 ▸ ts_sum_exact sqrt .to xs w mp hw⟩, ⟨l2, a2, b2 ▸ ts_sum_exact sqrt .iter xs w mp hw⟩⟩
 
 /-! ### `ts_mean` -/
 def R_ts_mean (g : Gen.ts_mean.St) (m : Mom) : Prop := g.sum = m.s1 ∧ g.n = m.n
@@ -471,6 +607,21 @@ theorem ts_mean_exact (sqrt : Rat → Rat) (sh : Shape) (xs : List Rat) (w : Nat
   simp only [tsFeat] at e
   simp only [List.length_map] at e
   rw [ts_mean_minPeriods, ← e]; exact h
+/-- **from source, end to end**: replay the log of the regenerated driver (`rolling_apply_to`, resp. the
+iterator body `rolling_apply`) on the series, run the regenerated closure over it: every position
+carries the from-scratch statistic of its window -/
+theorem ts_mean_from_source (sqrt : Rat → Rat) (xs : List Rat) (w : Nat) (mp : Option Nat) (hw : 1 ≤ w) :
+    (∃ log, GenDrv.rolling_apply_to.run xs.length w = some log ∧
+      List.Forall₂ (Agree sqrt)
+        (genRun (Gen.ts_mean.step sqrt w (Gen.ts_mean.minPeriods w mp)) (Gen.ts_mean.init w) (C02Gen.callsOfLogTo xs log))
+        ((List.range xs.length).map fun i => Spec.feat .mean w mp (vwin (xs.map some) i w))) ∧
+    (∃ log, GenDrv.rolling_apply.run xs.length w = some log ∧
+      List.Forall₂ (Agree sqrt)
+        (genRun (Gen.ts_mean.step sqrt w (Gen.ts_mean.minPeriods w mp)) (Gen.ts_mean.init w) (C02Gen.callsOfLogIter xs log))
+        ((List.range xs.length).map fun i => Spec.feat .mean w mp (vwin (xs.map some) i w))) := by
+  obtain ⟨l1, a1, b1⟩ := C02Gen.applyCalls_to_of_log xs w hw
+  obtain ⟨l2, a2, b2⟩ := C02Gen.applyCalls_iter_of_log xs w hw
+  exact ⟨⟨l1, a1, b1 ▸ ts_mean_exact sqrt .to xs w mp hw⟩, ⟨l2, a2, b2 ▸ ts_mean_exact sqrt .iter xs w mp hw⟩⟩
 
 /-! ### `ts_std` -/
 def R_ts_std (g : Gen.ts_std.St) (m : Mom) : Prop := g.sum = m.s1 ∧ g.sum2 = m.s2 ∧ g.n = m.n
@@ -514,6 +665,21 @@ theorem ts_std_exact (sqrt : Rat → Rat) (sh : Shape) (xs : List Rat) (w : Nat)
   simp only [tsFeat] at e
   simp only [List.length_map] at e
   rw [ts_std_minPeriods, ← e]; exact h
+/-- **from source, end to end**: replay the log of the regenerated driver (`rolling_apply_to`, resp. the
+iterator body `rolling_apply`) on the series, run the regenerated closure over it: every position
+carries the from-scratch statistic of its window -/
+theorem ts_std_from_source (sqrt : Rat → Rat) (xs : List Rat) (w : Nat) (mp : Option Nat) (hw : 1 ≤ w) :
+    (∃ log, GenDrv.rolling_apply_to.run xs.length w = some log ∧
+      List.Forall₂ (Agree sqrt)
+        (genRun (Gen.ts_std.step sqrt w (Gen.ts_std.minPeriods w mp)) (Gen.ts_std.init w) (C02Gen.callsOfLogTo xs log))
+        ((List.range xs.length).map fun i => Spec.feat .std w mp (vwin (xs.map some) i w))) ∧
+    (∃ log, GenDrv.rolling_apply.run xs.length w = some log ∧
+      List.Forall₂ (Agree sqrt)
+        (genRun (Gen.ts_std.step sqrt w (Gen.ts_std.minPeriods w mp)) (Gen.ts_std.init w) (C02Gen.callsOfLogIter xs log))
+        ((List.range xs.length).map fun i => Spec.feat .std w mp (vwin (xs.map some) i w))) := by
+  obtain ⟨l1, a1, b1⟩ := C02Gen.applyCalls_to_of_log xs w hw
+  obtain ⟨l2, a2, b2⟩ := C02Gen.applyCalls_iter_of_log xs w hw
+  exact ⟨⟨l1, a1, b1 ▸ ts_std_exact sqrt .to xs w mp hw⟩, ⟨l2, a2, b2 ▸ ts_std_exact sqrt .iter xs w mp hw⟩⟩
 
 /-! ### `ts_var` -/
 def R_ts_var (g : Gen.ts_var.St) (m : Mom) : Prop := g.sum = m.s1 ∧ g.sum2 = m.s2 ∧ g.n = m.n
@@ -558,6 +724,21 @@ theorem ts_var_exact (sqrt : Rat → Rat) (sh : Shape) (xs : List Rat) (w : Nat)
   simp only [tsFeat] at e
   simp only [List.length_map] at e
   rw [ts_var_minPeriods, ← e]; exact h
+/-- **from source, end to end**: replay the log of the regenerated driver (`rolling_apply_to`, resp. the
+iterator body `rolling_apply`) on the series, run the regenerated closure over it: every position
+carries the from-scratch statistic of its window -/
+theorem ts_var_from_source (sqrt : Rat → Rat) (xs : List Rat) (w : Nat) (mp : Option Nat) (hw : 1 ≤ w) :
+    (∃ log, GenDrv.rolling_apply_to.run xs.length w = some log ∧
+      List.Forall₂ (Agree sqrt)
+        (genRun (Gen.ts_var.step sqrt w (Gen.ts_var.minPeriods w mp)) (Gen.ts_var.init w) (C02Gen.callsOfLogTo xs log))
+        ((List.range xs.length).map fun i => Spec.feat .var w mp (vwin (xs.map some) i w))) ∧
+    (∃ log, GenDrv.rolling_apply.run xs.length w = some log ∧
+      List.Forall₂ (Agree sqrt)
+        (genRun (Gen.ts_var.step sqrt w (Gen.ts_var.minPeriods w mp)) (Gen.ts_var.init w) (C02Gen.callsOfLogIter xs log))
+        ((List.range xs.length).map fun i => Spec.feat .var w mp (vwin (xs.map some) i w))) := by
+  obtain ⟨l1, a1, b1⟩ := C02Gen.applyCalls_to_of_log xs w hw
+  obtain ⟨l2, a2, b2⟩ := C02Gen.applyCalls_iter_of_log xs w hw
+  exact ⟨⟨l1, a1, b1 ▸ ts_var_exact sqrt .to xs w mp hw⟩, ⟨l2, a2, b2 ▸ ts_var_exact sqrt .iter xs w mp hw⟩⟩
 
 /-! ### `ts_skew` -/
 def R_ts_skew (g : Gen.ts_skew.St) (m : Mom) : Prop := g.sum = m.s1 ∧ g.sum2 = m.s2 ∧ g.sum3 = m.s3 ∧ g.n = m.n
@@ -603,6 +784,21 @@ theorem ts_skew_exact (sqrt : Rat → Rat) (sh : Shape) (xs : List Rat) (w : Nat
   simp only [tsFeat] at e
   simp only [List.length_map] at e
   rw [ts_skew_minPeriods, ← e]; exact h
+/-- **from source, end to end**: replay the log of the regenerated driver (`rolling_apply_to`, resp. the
+iterator body `rolling_apply`) on the series, run the regenerated closure over it: every position
+carries the from-scratch statistic of its window -/
+theorem ts_skew_from_source (sqrt : Rat → Rat) (xs : List Rat) (w : Nat) (mp : Option Nat) (hw : 1 ≤ w) :
+    (∃ log, GenDrv.rolling_apply_to.run xs.length w = some log ∧
+      List.Forall₂ AgreeW
+        (genRun (Gen.ts_skew.step sqrt w (Gen.ts_skew.minPeriods w mp)) (Gen.ts_skew.init w) (C02Gen.callsOfLogTo xs log))
+        ((List.range xs.length).map fun i => Spec.feat .skew w mp (vwin (xs.map some) i w))) ∧
+    (∃ log, GenDrv.rolling_apply.run xs.length w = some log ∧
+      List.Forall₂ AgreeW
+        (genRun (Gen.ts_skew.step sqrt w (Gen.ts_skew.minPeriods w mp)) (Gen.ts_skew.init w) (C02Gen.callsOfLogIter xs log))
+        ((List.range xs.length).map fun i => Spec.feat .skew w mp (vwin (xs.map some) i w))) := by
+  obtain ⟨l1, a1, b1⟩ := C02Gen.applyCalls_to_of_log xs w hw
+  obtain ⟨l2, a2, b2⟩ := C02Gen.applyCalls_iter_of_log xs w hw
+  exact ⟨⟨l1, a1, b1 ▸ ts_skew_exact sqrt .to xs w mp hw⟩, ⟨l2, a2, b2 ▸ ts_skew_exact sqrt .iter xs w mp hw⟩⟩
 
 /-! ### `ts_kurt` -/
 def R_ts_kurt (g : Gen.ts_kurt.St) (m : Mom) : Prop := g.sum = m.s1 ∧ g.sum2 = m.s2 ∧ g.sum3 = m.s3 ∧ g.sum4 = m.s4 ∧ g.n = m.n
@@ -672,6 +868,21 @@ theorem ts_kurt_exact (sqrt : Rat → Rat) (sh : Shape) (xs : List Rat) (w : Nat
   simp only [tsFeat] at e
   simp only [List.length_map] at e
   rw [ts_kurt_minPeriods, ← e]; exact h
+/-- **from source, end to end**: replay the log of the regenerated driver (`rolling_apply_to`, resp. the
+iterator body `rolling_apply`) on the series, run the regenerated closure over it: every position
+carries the from-scratch statistic of its window -/
+theorem ts_kurt_from_source (sqrt : Rat → Rat) (xs : List Rat) (w : Nat) (mp : Option Nat) (hw : 1 ≤ w) :
+    (∃ log, GenDrv.rolling_apply_to.run xs.length w = some log ∧
+      List.Forall₂ (Agree sqrt)
+        (genRun (Gen.ts_kurt.step sqrt w (Gen.ts_kurt.minPeriods w mp)) (Gen.ts_kurt.init w) (C02Gen.callsOfLogTo xs log))
+        ((List.range xs.length).map fun i => Spec.feat .kurt w mp (vwin (xs.map some) i w))) ∧
+    (∃ log, GenDrv.rolling_apply.run xs.length w = some log ∧
+      List.Forall₂ (Agree sqrt)
+        (genRun (Gen.ts_kurt.step sqrt w (Gen.ts_kurt.minPeriods w mp)) (Gen.ts_kurt.init w) (C02Gen.callsOfLogIter xs log))
+        ((List.range xs.length).map fun i => Spec.feat .kurt w mp (vwin (xs.map some) i w))) := by
+  obtain ⟨l1, a1, b1⟩ := C02Gen.applyCalls_to_of_log xs w hw
+  obtain ⟨l2, a2, b2⟩ := C02Gen.applyCalls_iter_of_log xs w hw
+  exact ⟨⟨l1, a1, b1 ▸ ts_kurt_exact sqrt .to xs w mp hw⟩, ⟨l2, a2, b2 ▸ ts_kurt_exact sqrt .iter xs w mp hw⟩⟩
 
 /-! ### `ts_ewm` -/
 def R_ts_ewm (g : Gen.ts_ewm.St) (m : Ewm) : Prop := g.n = m.n ∧ g.q_x = m.qx
@@ -712,6 +923,21 @@ theorem ts_ewm_exact (sqrt : Rat → Rat) (sh : Shape) (xs : List Rat) (w : Nat)
   simp only [tsFeat] at e
   simp only [List.length_map] at e
   rw [ts_ewm_minPeriods, ← e]; exact h
+/-- **from source, end to end**: replay the log of the regenerated driver (`rolling_apply_to`, resp. the
+iterator body `rolling_apply`) on the series, run the regenerated closure over it: every position
+carries the from-scratch statistic of its window -/
+theorem ts_ewm_from_source (sqrt : Rat → Rat) (xs : List Rat) (w : Nat) (mp : Option Nat) (hw : 1 ≤ w) :
+    (∃ log, GenDrv.rolling_apply_to.run xs.length w = some log ∧
+      List.Forall₂ (Agree sqrt)
+        (genRun (Gen.ts_ewm.step sqrt w (Gen.ts_ewm.minPeriods w mp)) (Gen.ts_ewm.init w) (C02Gen.callsOfLogTo xs log))
+        ((List.range xs.length).map fun i => Spec.feat .ewm w mp (vwin (xs.map some) i w))) ∧
+    (∃ log, GenDrv.rolling_apply.run xs.length w = some log ∧
+      List.Forall₂ (Agree sqrt)
+        (genRun (Gen.ts_ewm.step sqrt w (Gen.ts_ewm.minPeriods w mp)) (Gen.ts_ewm.init w) (C02Gen.callsOfLogIter xs log))
+        ((List.range xs.length).map fun i => Spec.feat .ewm w mp (vwin (xs.map some) i w))) := by
+  obtain ⟨l1, a1, b1⟩ := C02Gen.applyCalls_to_of_log xs w hw
+  obtain ⟨l2, a2, b2⟩ := C02Gen.applyCalls_iter_of_log xs w hw
+  exact ⟨⟨l1, a1, b1 ▸ ts_ewm_exact sqrt .to xs w mp hw⟩, ⟨l2, a2, b2 ▸ ts_ewm_exact sqrt .iter xs w mp hw⟩⟩
 
 /-! ### `ts_wma` -/
 def R_ts_wma (g : Gen.ts_wma.St) (m : Wma) : Prop := g.n = m.n ∧ g.sum = m.sum ∧ g.sum_xt = m.sxt
@@ -752,6 +978,21 @@ theorem ts_wma_exact (sqrt : Rat → Rat) (sh : Shape) (xs : List Rat) (w : Nat)
   simp only [tsFeat] at e
   simp only [List.length_map] at e
   rw [ts_wma_minPeriods, ← e]; exact h
+/-- **from source, end to end**: replay the log of the regenerated driver (`rolling_apply_to`, resp. the
+iterator body `rolling_apply`) on the series, run the regenerated closure over it: every position
+carries the from-scratch statistic of its window -/
+theorem ts_wma_from_source (sqrt : Rat → Rat) (xs : List Rat) (w : Nat) (mp : Option Nat) (hw : 1 ≤ w) :
+    (∃ log, GenDrv.rolling_apply_to.run xs.length w = some log ∧
+      List.Forall₂ (Agree sqrt)
+        (genRun (Gen.ts_wma.step sqrt w (Gen.ts_wma.minPeriods w mp)) (Gen.ts_wma.init w) (C02Gen.callsOfLogTo xs log))
+        ((List.range xs.length).map fun i => Spec.feat .wma w mp (vwin (xs.map some) i w))) ∧
+    (∃ log, GenDrv.rolling_apply.run xs.length w = some log ∧
+      List.Forall₂ (Agree sqrt)
+        (genRun (Gen.ts_wma.step sqrt w (Gen.ts_wma.minPeriods w mp)) (Gen.ts_wma.init w) (C02Gen.callsOfLogIter xs log))
+        ((List.range xs.length).map fun i => Spec.feat .wma w mp (vwin (xs.map some) i w))) := by
+  obtain ⟨l1, a1, b1⟩ := C02Gen.applyCalls_to_of_log xs w hw
+  obtain ⟨l2, a2, b2⟩ := C02Gen.applyCalls_iter_of_log xs w hw
+  exact ⟨⟨l1, a1, b1 ▸ ts_wma_exact sqrt .to xs w mp hw⟩, ⟨l2, a2, b2 ▸ ts_wma_exact sqrt .iter xs w mp hw⟩⟩
 
 /-- all 16 entry points of features.rs were found and translated (a closure outside the translator's
 subset is emitted without `step`, which breaks the theorems above; one that disappears breaks this) -/
